@@ -41,7 +41,17 @@ CLASSES = {
                                 'optional': BOOL, 'end_of_message': BOOL}, nonnull=['_params']),
     'BufrMessage': dict(bases=[], module='pybufrkit.bufr',
                         fields={'filename': STR, 'sections': ListT(Ref('BufrSection')), 'serialized_bytes': VAL,
-                                'table_group_key': VAL}, nonnull=['sections']),
+                                'table_group_key': VAL, '_is_compressed': Ref('SectionParameter'), '_n_subsets': Ref('SectionParameter'),
+                                '_edition': Ref('SectionParameter'), '_length': Ref('SectionParameter'),
+                                '_template_data': Ref('SectionParameter'), '_unexpanded_descriptors': Ref('SectionParameter')},
+                        nonnull=['sections']),
+    'BufrTableGroup': dict(bases=[], fields={}),
+    'CompiledTemplate': dict(bases=[], fields={}),
+    'CompiledTemplateManager': dict(bases=[], module='pybufrkit.templatecompiler', fields={'cache_max': INT}),
+    'TemplateData': dict(bases=[], module='pybufrkit.templatedata',
+                         fields={'template': Ref('BufrTemplate'), 'is_compressed': BOOL,
+                                 'decoded_descriptors_all_subsets': ListT(ListT(DESC)), 'decoded_values_all_subsets': ListT(ListT(VAL)),
+                                 'bitmap_links_all_subsets': ListT(DictT(INT, INT)), 'n_subsets': INT}),
     # ---- descriptors ------------------------------------------------------------------------
     'Descriptor': dict(bases=[], module='pybufrkit.descriptors', fields={'id': INT}),
     'AssociatedDescriptor': dict(bases=['Descriptor'], module='pybufrkit.descriptors',
@@ -94,13 +104,16 @@ _AI = z3.ArraySort(z3.IntSort(), z3.IntSort())
 # nprims calls so far; for call k: prim[k] kind, pdesc[k] descriptor identity, pa[k] width / length / value,
 # pc[k] reference value or factor, pf[k] the 10**scale float
 CLASSES['CoderState']['ghosts'] = {'nprims': z3.IntSort(), 'prim': _AI, 'pdesc': _AI, 'pa': _AI, 'pc': _AI,
-                                   'pf': z3.ArraySort(z3.IntSort(), sort_of(FLOAT))}
+                                   'pf': z3.ArraySort(z3.IntSort(), sort_of(FLOAT)),
+                                   'walks': z3.IntSort()}          # number of template walks issued on this state
 CLASSES['CoderState']['ghost_facts'] = {'nprims': lambda z: z >= 0}       # a call counter
 CLASSES.update({
     'Coder': dict(bases=[], module='pybufrkit.coder', fields={}),
     'BitOperator': dict(bases=[], fields={}),
-    'Decoder': dict(bases=['Coder'], module='pybufrkit.decoder', fields={}),
-    'Encoder': dict(bases=['Coder'], module='pybufrkit.encoder', fields={'ignore_declared_length': BOOL}),
+    'Decoder': dict(bases=['Coder'], module='pybufrkit.decoder',
+                    fields={'compiled_template_manager': Ref('CompiledTemplateManager'), 'tables_root_dir': STR}),
+    'Encoder': dict(bases=['Coder'], module='pybufrkit.encoder',
+                    fields={'ignore_declared_length': BOOL, 'compiled_template_manager': Ref('CompiledTemplateManager'), 'tables_root_dir': STR}),
 })
 
 
